@@ -1,6 +1,6 @@
 CONSTANTS
   MaxKids = 40
-  Extra = {"zz", "ex:t", "ex:Name", "key", "Name", "Statement", "Parent", "Ext", ":x", "x:"}
+  Extra = {"zz", "ex:t", "ex:Name", "key", "Name", "Statement", "Parent", "Ext", ":x", "x:", "a:b:c"}
 INIT TInit
 NEXT TNext
 POSTCONDITION Consumed
